@@ -459,7 +459,20 @@ func c13chain(list []*rm.Tree, chain []string) c13result {
 			if c13dupInner(list) {
 				op = w // one finding class whatever the reader the trees came from
 			}
+			before := make([]string, len(ts))
+			for i, t := range ts {
+				before[i] = t.Newick()
+			}
 			doc, err := c13write(w, ts)
+			if last && err == nil {
+				// converting does not consume the trees: the objects handed to a writer are the same trees afterwards
+				for i, t := range ts {
+					if after := t.Newick(); after != before[i] {
+						res.key, res.what = "C13/convert/"+op+"/writer-changed-its-input", fmt.Sprintf("tree %s handed to the %s writer is %s afterwards", before[i], w, after)
+						return
+					}
+				}
+			}
 			if err != nil {
 				// a writer that declares failure creates no obligation - but on in-domain trees gotree's writers have no reason to fail
 				if last {
